@@ -9,7 +9,13 @@ SCRATCH = os.environ.get("VERIF_SCRATCH")
 _ROOT = SCRATCH or VERIF
 if SCRATCH and not os.path.isdir(os.path.join(SCRATCH, "coq")):
     os.makedirs(SCRATCH, exist_ok=True)
-    subprocess.run(["cp", "-a", os.path.join(VERIF, "coq"), os.path.join(SCRATCH, "coq")], check=True)
+    # the shared coq/Cases directory holds transient per-run case files of concurrently running checks: they may
+    # vanish while copying (a failed cp made the mutation run exit without a verdict) and are never needed
+    import shutil
+    shutil.copytree(os.path.join(VERIF, "coq"), os.path.join(SCRATCH, "coq"), symlinks=True,
+                    ignore=lambda d, names: [n for n in names if os.path.basename(d) == "Cases" or n.endswith((".aux", ".lock"))],
+                    ignore_dangling_symlinks=True)
+    os.makedirs(os.path.join(SCRATCH, "coq", "Cases"), exist_ok=True)
 COQ = os.path.join(_ROOT, "coq")
 CASES = os.path.join(COQ, "Cases")
 EVID = os.path.join(_ROOT, "evidence")
